@@ -476,7 +476,93 @@ func knownSignature(c SheetCase, viol *violation) string {
 	if strings.HasPrefix(viol.prop, "border-") && strings.HasSuffix(viol.prop, "-color") && hasUnloweredBorderColorList(c.CSS, un, lacks) {
 		return "C12-border-color-list-not-lowered"
 	}
+	// C12-media-unwrap-merge: minify-syntax; a style rule, one or more '@media' blocks that repeat the condition of an
+	// enclosing '@media' (they are unwrapped), and a style rule with the same declarations as the first one, which set
+	// the failing longhand
+	if c.Cfg.MinifySyntax && hasMergeAcrossUnwrappedMedia(c.CSS, viol.prop) {
+		return "C12-media-unwrap-merge"
+	}
 	return ""
+}
+
+// bodyKey describes the declarations of a style rule (canonical longhand values where the model knows the property,
+// token text otherwise) and reports whether they set prop. ok == false: the block has nested rules.
+func bodyKey(items []cssref.Item, prop string) (key string, setsProp bool, ok bool) {
+	var sb strings.Builder
+	for _, it := range items {
+		if it.Decl == nil {
+			return "", false, false
+		}
+		d := it.Decl
+		if longs, good := cssref.Expand(d.Name, d.Value); good {
+			for _, l := range longs {
+				sb.WriteString(l.Prop + ":" + l.Val.String())
+				setsProp = setsProp || l.Prop == prop
+			}
+		} else {
+			sb.WriteString(d.Name + ":" + cssref.Serialize(d.Value))
+		}
+		if d.Important {
+			sb.WriteString("!")
+		}
+		sb.WriteString(";")
+	}
+	return sb.String(), setsProp, true
+}
+
+// hasMergeAcrossUnwrappedMedia: some rule list has a style rule, then only '@media' rules whose condition repeats
+// that of an enclosing '@media', then a style rule with the same declarations, which set prop.
+func hasMergeAcrossUnwrappedMedia(css string, prop string) bool {
+	found := false
+	var walk func(items []cssref.Item, media []string)
+	walk = func(items []cssref.Item, media []string) {
+		isDup := func(r *cssref.Rule) bool {
+			if r.At != "media" {
+				return false
+			}
+			key := strings.ToLower(cssref.Serialize(r.Prelude))
+			for _, m := range media {
+				if m == key {
+					return true
+				}
+			}
+			return false
+		}
+		var rules []*cssref.Rule
+		for _, it := range items {
+			if it.Rule != nil {
+				rules = append(rules, it.Rule)
+			}
+		}
+		for i, a := range rules {
+			if a.At != "" {
+				continue
+			}
+			ka, sets, ok := bodyKey(a.Items, prop)
+			if !ok || !sets {
+				continue
+			}
+			j := i + 1
+			for j < len(rules) && isDup(rules[j]) {
+				j++
+			}
+			if j == i+1 || j >= len(rules) || rules[j].At != "" {
+				continue
+			}
+			if kb, _, ok := bodyKey(rules[j].Items, prop); ok && kb == ka {
+				found = true
+			}
+		}
+		for _, r := range rules {
+			m := media
+			if r.At == "media" {
+				m = append(append([]string{}, media...), strings.ToLower(cssref.Serialize(r.Prelude)))
+			}
+			walk(r.Items, m)
+		}
+	}
+	walk(sheetItems(css), nil)
+	return found
 }
 
 func sheetItems(css string) []cssref.Item {
